@@ -495,14 +495,17 @@ func normList(v interface{}) []interface{} {
 
 // ---- generators ---------------------------------------------------------------------------------
 
-var c19Strings = []string{"", "a", "hello", "Hello World", "  padded  ", "héllo", "éa", "日本語", "ǆemal", "straße", "İstanbul", "a\tb\nc", "MiXeD cAsE", "x", "éé", "ß", "ŉ", "ǅ", "ﬁn", "😀 smile", "tab\there", "ÀÉÎ õü", "ǰ", "ΐ"}
+var c19Strings = []string{"", "a", "hello", "Hello World", "  padded  ", "héllo", "éa", "日本語", "ǆemal", "straße", "İstanbul", "a\tb\nc", "MiXeD cAsE", "x", "éé", "ß", "ŉ", "ǅ", "ﬁn", "😀 smile", "tab\there", "ÀÉÎ õü", "ǰ", "ΐ",
+	// combining marks (also leading, doubled, at the end), joiners, variation selectors: a character for
+	// these filters is a code point
+	"\u0301a", "e\u0301\u0301x", "noe\u0308l", "a\u0301", "\u0301", "\u0301\u0302", "x\u200dy", "\u2764\ufe0f ok", "\U0001F468\u200d\U0001F469", "a\u0300b\u0301c\u0302"}
 
 func genStrDesc(t *rapid.T) *E {
 	switch rapid.IntRange(0, 3).Draw(t, "strk") {
 	case 0:
 		return Str(rapid.SampledFrom(c19Strings).Draw(t, "cs"))
 	case 1:
-		s := rapid.StringOfN(rapid.RuneFrom(nil, unicode.Letter, unicode.Space), 0, 8, -1).Draw(t, "us")
+		s := rapid.StringOfN(rapid.RuneFrom(nil, unicode.Letter, unicode.Space, unicode.Mn), 0, 8, -1).Draw(t, "us")
 		return Str(s)
 	case 2:
 		return ZT(Str(rapid.SampledFrom(c19Strings).Draw(t, "ns")), "named")
